@@ -428,7 +428,7 @@ pub fn c20(tier: &str, seed: u64) -> Vec<Case> {
     let (threads, steps, rounds) = if tier == "thorough" { (64usize, 9usize, 8usize) } else { (64, 8, 1) };
     let mut v = vec![];
     // the store is also written by the services' background refresh: the live case runs beside everything below
-    let live = std::thread::spawn(crate::props::svc::live_short_ttl);
+    let live = std::thread::spawn(|| crate::props::svc::live_vec_with_baseline("listeners with a short-lived record", &crate::props::svc::live_short_ttl));
     // the lifetime computed for every TTL (the histories below can only watch the first seconds of a life): a record
     // received with TTL t expires t seconds after it was received - every t up to two hours, then samples up to 2^32 - 1;
     // the refresh point is compared with the model
